@@ -42,10 +42,20 @@ def make_log_case(rng, idx, floats=True):
         elif k < 0.7: ops.append(('log', rng.randrange(len(stmts)), rng.choice(live), rng.choice([cs[0], cs[0] + rng.randrange(1 << 36), rng.randrange(1 << 41)])))
         elif k < 0.85: w = rng.choice(live); live.remove(w); ops.append(('del', w)); ops.append(('consume',)) if rng.random() < 0.7 else None
         else: ops.append(('consume',))
+    churn = nw >= 2 and rng.random() < 0.3
+    if churn:
+        # writers that follow one another: each logs, is destroyed, and a consume removes its channel before the next one is created
+        # (the allocator then hands the freed channel block to the next writer: what is printed for it must still be ITS id and name)
+        ops = []
+        for i in range(nw):
+            ops.append(('new', i))
+            for _ in range(rng.randrange(1, 3)): ops.append(('log', rng.randrange(len(stmts)), i, rng.choice([cs[0], cs[0] + rng.randrange(1 << 36), rng.randrange(1 << 41)])))
+            if rng.random() < 0.4: ops.append(('consume',))
+            if i + 1 < nw or rng.random() < 0.5: ops.append(('del', i)); ops.append(('consume',))
     ops.append(('consume',))
     logs = [o for o in ops if o[0] == 'log']
     has_time = all(stmts[o[1]]['explicit'] for o in logs)
-    evfmt = rng.choice(['%S %C [%M] %F|%G:%L %n(%t) %P | %m', '%m', '%S %m [%C]', '%I %T %m', '%n %t %m']) + (rng.choice([' %r %d %u', ' %d', ' %u %r']) if has_time else '')
+    evfmt = rng.choice(['%S %C [%M] %F|%G:%L %n(%t) %P | %m', '%n %t %m'] if churn else ['%S %C [%M] %F|%G:%L %n(%t) %P | %m', '%m', '%S %m [%C]', '%I %T %m', '%n %t %m']) + (rng.choice([' %r %d %u', ' %d', ' %u %r']) if has_time else '')
     tfmt = rng.choice(['%Y-%m-%d %H:%M:%S.%N %z %Z', '%d/%m/%y %H:%M', '%S.%N'])
     return {'idx': idx, 'g': g, 'writers': writers, 'cs': cs, 'stmts': stmts, 'ops': ops, 'evfmt': evfmt + '\n', 'tfmt': tfmt}
 
